@@ -544,6 +544,8 @@ class ObjectBase(EntityContainer):
                 values = getattr(child, "_values", None)
                 if values is None:
                     values = child.workspace.fetch_values(child)
+                if values is None:
+                    continue
                 child.values = np.delete(values, indices, axis=0)
                 if clear_cache:
                     clear_array_attributes(child)
